@@ -28,6 +28,7 @@ FUNCTIONS = [
     "pyxel.util.misc:get_dtype",
     "pyxel.models.readout_electronics.sar_adc:apply_sar_adc",
     "pyxel.models.readout_electronics.sar_adc_with_noise:apply_sar_adc_with_noise",
+    "pyxel.models.readout_electronics.sar_adc:sar_adc", "pyxel.models.readout_electronics.sar_adc_with_noise:sar_adc_with_noise",
 ]
 STUBS = [
     "np in simple_adc / sar_adc / sar_adc_with_noise / util.misc -> vx.symnp",
